@@ -8,6 +8,8 @@ from dataclasses import dataclass, field
 from typing import Any, Optional
 
 VERIF = os.path.dirname(os.path.dirname(os.path.abspath(__file__)))
+# self-tests analyse scratch copies: their evidence must not overwrite the real one
+EVIDENCE_DIR = os.environ.get("PSTATIC_EVIDENCE_DIR") or os.path.join(VERIF, "evidence")
 
 
 @dataclass
@@ -75,11 +77,11 @@ class Report:
         return [i for i in self.instances if i.status == "known"]
 
     def finish(self, seed: int, coverage_extra: dict, explanation: str, assumptions: list[str]) -> int:
-        os.makedirs(os.path.join(VERIF, "evidence", "replay"), exist_ok=True)
+        os.makedirs(os.path.join(EVIDENCE_DIR, "replay"), exist_ok=True)
         viol = self.violations
         replay_paths = []
         for n, v in enumerate(viol):
-            p = os.path.join(VERIF, "evidence", "replay", f"{self.prop}-{n}.json")
+            p = os.path.join(EVIDENCE_DIR, "replay", f"{self.prop}-{n}.json")
             with open(p, "w") as f:
                 json.dump({"property": self.prop, "rule": v.rule, "key": v.key, "where": v.where, "detail": v.detail, "extra": _jsonable(v.extra)}, f, indent=1)
             replay_paths.append(p)
@@ -127,7 +129,7 @@ class Report:
             "wall_s": round(time.time() - self.t0, 3),
             "violations": len(viol),
         }
-        with open(os.path.join(VERIF, "evidence", f"{self.prop}.json"), "w") as f:
+        with open(os.path.join(EVIDENCE_DIR, f"{self.prop}.json"), "w") as f:
             json.dump(ev, f, indent=1, sort_keys=False)
         for k in self.known:
             print(f"KNOWN-FINDING: property={self.prop} {k.rule} {k.key} :: {k.extra.get('what', '')}")
